@@ -82,7 +82,7 @@ def solve(pc, goal, timeout_ms=10000, use_cvc5=True, hints=()):
     return "unknown", "portfolio", time.time() - t0, None
 
 
-def minimise(pc, goal, leaves, bounds=(4, 64, 4096, 1 << 20), timeout_ms=3000):
+def minimise(pc, goal, leaves, bounds=(4, 64, 4096, 1 << 20), timeout_ms=10000):
     """look for a small counter-model: bound |leaf| progressively"""
     for b in bounds:
         s = z3.Solver()
